@@ -230,6 +230,8 @@ def run(pid, tier="quick", replay=None):
     cov["anchors_changed"] = sorted(k for k in digests if expected.get(k) not in (None, digests[k]))
 
     _write_params(mod, ctx)
+    for dep in getattr(mod, "PARAMS_FROM", []):     # generated parameter files of models this property reuses
+        _write_params(importlib.import_module(dep), ctx)
     proofs_ok = _proofs(mod, ctx) if not ctx.problems else False
     if not proofs_ok and "obligations" not in cov:
         cov["obligations"], cov["discharged"] = 1, 0
